@@ -95,6 +95,16 @@ def step (st : St) (j : Json) : St × List String :=
     let w' := { w with states := w.states.put t st.cfg.stateTtl (jStr j "state") s,
                        oauthNonces := w.oauthNonces.put t st.cfg.oauthNonceTtl (jStr j "nonce") (jStr j "state") }
     ({ st with w := w' }, ["seeded"])
+  | "authreq" =>
+    let r : AuthReq := { subject := jStr j "subject", redirectURI := jStr j "redirect_uri", aud := jStr j "aud",
+                         clientId := jStr j "client_id", scope := jStr j "scope", clientState := jStr j "client_state",
+                         challenge := jStr j "challenge", method := jStr j "method" }
+    let (w', res) := authorizeRequest st.cfg st.w t r
+    let out := match res with
+      | .ok o => s!"302 state={o.state} nonce={o.nonce} owner={o.owner}"
+      | .err e => "err:" ++ e
+      | .panic p => "panic:" ++ p
+    ({ st with w := w' }, [out])
   | "authresp" =>
     let r : AuthResp :=
       { subject := jStr j "subject", state := optStr j "state", vpToken := jBool j "vp_token",
